@@ -28,6 +28,15 @@ pub trait Engine {
     fn matches(&self, expected: &Value, got: &Value) -> bool {
         json_sub(expected, got)
     }
+    /// Severity of a comparison: 0 = agrees, 1 = MODEL-DRIFT (the code differs
+    /// from the code-shaped model on something the property does not state),
+    /// 2 = the property itself is broken. Default: every mismatch is a
+    /// violation (right whenever the property fixes the value exactly).
+    fn judge(&self, _ev: &Value, expected: &Value, got: &Value) -> u8 {
+        if self.matches(expected, got) { 0 } else { 2 }
+    }
+    /// Extra command-line arguments (e.g. `--focus C03`).
+    fn configure(&mut self, _args: &[String]) {}
     /// Counters proving the antecedents were exercised (vacuity guard).
     fn counters(&self) -> Value {
         json!({})
@@ -50,6 +59,8 @@ pub fn replay<E: Engine>(eng: &mut E, input: &mut dyn BufRead, opts: &ReplayOpts
     let mut steps = 0u64;
     let mut mismatches: Vec<Value> = Vec::new();
     let mut n_mismatch = 0u64;
+    let mut n_drift = 0u64;
+    let mut drifts: Vec<Value> = Vec::new();
     let mut n_panic = 0u64;
     let mut samples: Vec<Value> = Vec::new();
     let mut line = String::new();
@@ -115,12 +126,24 @@ pub fn replay<E: Engine>(eng: &mut E, input: &mut dyn BufRead, opts: &ReplayOpts
             let r = catch_unwind(AssertUnwindSafe(|| eng.apply(e)));
             match r {
                 Ok(got) => {
-                    if (opts.check_all_steps || i == last) && !eng.matches(o, &got) {
-                        n_mismatch += 1;
-                        if mismatches.len() < opts.max_report {
-                            mismatches.push(json!({"case": case, "step": i, "expected": o, "got": got}));
+                    if opts.check_all_steps || i == last {
+                        match eng.judge(e, o, &got) {
+                            0 => {}
+                            1 => {
+                                n_drift += 1;
+                                if drifts.len() < opts.max_report {
+                                    drifts.push(json!({"case": case, "step": i, "expected": o, "got": got}));
+                                }
+                                break;
+                            }
+                            _ => {
+                                n_mismatch += 1;
+                                if mismatches.len() < opts.max_report {
+                                    mismatches.push(json!({"case": case, "step": i, "expected": o, "got": got}));
+                                }
+                                break;
+                            }
                         }
-                        break;
                     }
                 }
                 Err(p) => {
@@ -143,6 +166,8 @@ pub fn replay<E: Engine>(eng: &mut E, input: &mut dyn BufRead, opts: &ReplayOpts
         "cases": cases,
         "steps": steps,
         "mismatch_count": n_mismatch,
+        "drift_count": n_drift,
+        "drifts": drifts,
         "panic_count": n_panic,
         "mismatches": mismatches,
         "samples": samples,
